@@ -132,8 +132,12 @@ def check_outputs(b, sol, hist, times, eps, viol, stats, *, label, compare_first
             viol.append({"inv": "RTS-factorisation", "msg": f"[{label}] backward conditional {i} does not reproduce the marginal mean at output {i}: {em:.2e}"})
         if check_cov and onp.max(onp.abs(onp.diag(Psc))) > 0:
             ec = compare.cov_err(P_rec, P_i, Psc, (q, d, hloc[i]))
-            if ec > tol_c:
-                viol.append({"inv": "RTS-factorisation", "msg": f"[{label}] backward conditional {i} does not reproduce the marginal covariance at output {i}: {ec:.2e}"})
+            # the recombination A P A^T + Q is done here, in double, on the returned arrays: its terms can exceed the result
+            # by many orders (backward gains ~ h^-q); rounding of the returned A alone perturbs the result by about
+            # 1e-16 x the size of the terms (allowed: 1e-14 x), measured in the same norm
+            amp = compare.cov_err(onp.abs(A) @ onp.abs(P_next) @ onp.abs(A).T + onp.abs(Q), onp.zeros_like(P_i), Psc, (q, d, hloc[i]))
+            if ec > tol_c + 1e-14 * amp:
+                viol.append({"inv": "RTS-factorisation", "msg": f"[{label}] backward conditional {i} does not reproduce the marginal covariance at output {i}: {ec:.2e} (tol {tol_c + 1e-14 * amp:.1e}, size of the terms {amp:.1e})"})
         # (2) neighbouring cross-covariance Cov(x_i, x_{i+1}) = G P^s_{i+1}
         if check_cov and idx[i + 1] > idx[i]:
             Gref = embed.to_np(scen.gain_between(G, idx[i], idx[i + 1]))
